@@ -17,6 +17,6 @@ const Cfg cfgs[] = {
   {"set/less/backoff_exp2/ebr0", mk<SetAd<xenium::harris_michael_list_based_set<int, xp::reclaimer<rc::EBR<0>>, xp::backoff<xenium::exponential_backoff<2>>>>>},
 };
 HMHarness h("hmlist", cfgs, sizeof(cfgs) / sizeof(cfgs[0]));
-struct Reg { Reg() { xsim::register_harness(&h); } } reg;
+struct Reg { Reg() { xsim::register_harness(&h); hx::register_reclaimer_probes(); xsim::fn_pair_probe("harris_michael: erase overlaps find of another thread", "harris_michael&5eraseE", "harris_michael&4findE"); xsim::fn_pair_probe("harris_michael: iterator increment overlaps erase", "iteratorppEv", "harris_michael&5eraseE"); xsim::fn_pair_probe("harris_michael: two erase overlap", "harris_michael&5eraseE", "harris_michael&5eraseE"); } } reg;
 } // namespace
 XSIM_MAIN()
